@@ -14,7 +14,8 @@ from pestverif.runner import Ctx
 ID = "C09"
 RULE = (
     "exhaustive DFS over every sequence of {push(fresh int), pop, clear, snapshot, restore, drop_snapshot} "
-    "(Stack), {+1,-1,zero,snapshot,restore,drop} (SnapshottingInt) and {pos:=v,push,drop,rule_push,rule_pop,"
+    "(Stack; all sequences up to the bound, and all canonical sequences - no pop/clear on an empty stack, no "
+    "restore/drop without a snapshot - up to a larger bound), {+1,-1,zero,snapshot,restore,drop} (SnapshottingInt) and {pos:=v,push,drop,rule_push,rule_pop,"
     "atomic+1,atomic.zero,checkpoint,ok,restore} (ParserState; ok/restore only with an open checkpoint, drop/"
     "rule_pop only on non-empty stacks) up to the tier's length bound, compared with a full-copy model after "
     "every step, plus Hypothesis RuleBasedStateMachine histories of up to 200 steps. A history (= DFS node, "
@@ -34,8 +35,8 @@ STATE_OPS = (
 )
 
 BOUNDS = {
-    "quick": {"stack": 8, "int": 8, "state": 6, "sm_examples": 40},
-    "thorough": {"stack": 10, "int": 10, "state": 7, "sm_examples": 400},
+    "quick": {"stack": 8, "canon": 11, "int": 8, "state": 6, "sm_examples": 60},
+    "thorough": {"stack": 10, "canon": 13, "int": 10, "state": 7, "sm_examples": 600},
 }
 
 
@@ -156,12 +157,24 @@ def check_stack_seq(seq):
     return None
 
 
-def dfs_stack(ctx: Ctx, prefix, max_len):
+def _enabled(m, op):
+    """Canonical histories: every operation does something (no pop/clear on an empty stack, no
+    restore/drop without a snapshot)."""
+    if op in ("pop", "clear"):
+        return bool(m.items)
+    if op in ("restore", "drop"):
+        return bool(m.snaps)
+    return True
+
+
+def dfs_stack(ctx: Ctx, prefix, max_len, canonical=False):
     from pest.stack import Stack
 
     s, m = Stack(), StackModel()
     seq = []
     for op in prefix:
+        if canonical and not _enabled(m, op):
+            return
         arg = len(seq) if op == "push" else None
         seq.append((op, arg))
         stack_apply(s, op, arg)
@@ -169,6 +182,8 @@ def dfs_stack(ctx: Ctx, prefix, max_len):
 
     def rec(s, m, depth):
         for op in STACK_OPS:
+            if canonical and not _enabled(m, op):
+                continue
             arg = depth if op == "push" else None
             s2, m2 = clone_stack(s), m.clone()
             seq.append((op, arg))
@@ -487,11 +502,14 @@ def run_state_machines(ctx: Ctx, n_examples: int):
         derandomize=False,
     )
 
-    op_stack = st.lists(st.sampled_from(STACK_OPS), min_size=10, max_size=200)
-    op_int = st.lists(st.sampled_from(INT_OPS), min_size=10, max_size=200)
-    op_state = st.lists(
-        st.tuples(st.sampled_from(STATE_OPS), st.integers(0, 9)), min_size=10, max_size=200
-    )
+    def sized(elem):
+        # draw the length first: Hypothesis' own list sizes are heavily skewed towards short lists
+        return st.integers(10, 200).flatmap(lambda n: st.lists(elem, min_size=n, max_size=n))
+
+    # weighted towards snapshot/pop so that deep nestings with undercut snapshots are common
+    op_stack = sized(st.sampled_from(STACK_OPS + ("push", "snapshot", "pop", "snapshot")))
+    op_int = sized(st.sampled_from(INT_OPS))
+    op_state = sized(st.tuples(st.sampled_from(STATE_OPS + ("checkpoint", "push", "drop")), st.integers(0, 9)))
 
     @hypothesis.seed(ctx.sub_seed("sm-stack"))
     @settings(sett)
@@ -660,6 +678,8 @@ def shards(tier: str):
     jobs = []
     for p in itertools.product(STACK_OPS, repeat=2):
         jobs.append(("stack", list(p), b["stack"]))
+    for p in itertools.product(STACK_OPS, repeat=3):
+        jobs.append(("canon", list(p), b["canon"]))
     for p in itertools.product(INT_OPS, repeat=2):
         jobs.append(("int", list(p), b["int"]))
     for p in itertools.product(STATE_OPS, repeat=2):
@@ -667,7 +687,7 @@ def shards(tier: str):
     jobs.append(("short", None, None))
     # heavy jobs first, round-robin into 16 shards
     out = [{"jobs": [], "sm": b["sm_examples"], "idx": i} for i in range(16)]
-    order = sorted(jobs, key=lambda j: {"stack": 0, "state": 1, "int": 2, "short": 3}[j[0]])
+    order = sorted(jobs, key=lambda j: {"canon": 0, "stack": 1, "state": 2, "int": 3, "short": 4}[j[0]])
     for i, j in enumerate(order):
         out[i % 16]["jobs"].append(j)
     return out
@@ -678,6 +698,8 @@ def run_shard(ctx: Ctx, spec):
     for kind, prefix, bound in spec["jobs"]:
         if kind == "stack":
             dfs_stack(ctx, prefix, bound)
+        elif kind == "canon":
+            dfs_stack(ctx, prefix, bound, canonical=True)
         elif kind == "int":
             dfs_int(ctx, prefix, bound)
         elif kind == "state":
@@ -694,6 +716,7 @@ def run_shard(ctx: Ctx, spec):
         {
             "complete": True,
             "stack_max_len": b["stack"],
+            "stack_canonical_max_len": b["canon"],
             "int_max_len": b["int"],
             "state_max_len": b["state"],
         }
